@@ -40,7 +40,7 @@ type mgrCase struct {
 	Closer    bool // RunnerCloserManager (else RunnerManager)
 	Runners   []runnerSpec
 	Closers   []closerSpec
-	Grace     string // none | generous | short
+	Grace     string // none | generous | short | zero | negative (a grace period that is given but not positive is over as soon as the closers start)
 	ParentAt  int    // x100ms, 0 = parent never cancelled
 	ParentPre bool   // the parent context has ALREADY ended when Run is called (cancelled, or its deadline has passed, with ParentDL)
 	ParentDL  bool   // the parent context ends by its DEADLINE at ParentAt (context.DeadlineExceeded) instead of being cancelled
@@ -323,6 +323,12 @@ func runMgr(t *testing.T, c mgrCase) (nontrivial bool, classes []string, err err
 				g = 500 * ms
 			}
 			grace = &g
+		case "zero":
+			g := time.Duration(0)
+			grace = &g
+		case "negative":
+			g := -time.Second
+			grace = &g
 		}
 		log := quietLogger()
 		m := concurrency.NewRunnerCloserManager(log, grace, runners[:len(runners)-c.AddBefore]...)
@@ -515,10 +521,20 @@ func runMgr(t *testing.T, c mgrCase) (nontrivial bool, classes []string, err err
 		// fatal iff the closers outlast the grace period
 		f := rec.find("fatal")
 		wantFatal := c.Grace == "short" && slowest > 0
-		if wantFatal && (len(f) != 1 || f[0] != exp.tr+*grace) {
+		if (c.Grace == "zero" || c.Grace == "negative") && slowest > 0 {
+			// the grace period is over the moment the closers start, and they take longer than that
+			if len(f) != 1 || f[0] != exp.tr {
+				errs.Failf("fatal shutdown fired at %v, want once at %v: the grace period (%v) is not positive and the closers (slowest %ds) outlast it", f, exp.tr, *grace, slowest)
+			}
+		} else if c.Grace == "zero" || c.Grace == "negative" {
+			// closers that take no time against a grace period of no time: both outcomes are "on time"
+			if len(f) > 1 || (len(f) == 1 && f[0] != exp.tr) {
+				errs.Failf("fatal shutdown fired at %v (grace %v, instantaneous closers started at %v)", f, *grace, exp.tr)
+			}
+		} else if wantFatal && (len(f) != 1 || f[0] != exp.tr+*grace) {
 			errs.Failf("fatal shutdown fired at %v, want once at %v (grace %v after the closers started)", f, exp.tr+*grace, *grace)
 		}
-		if !wantFatal && len(f) != 0 {
+		if !wantFatal && c.Grace != "zero" && c.Grace != "negative" && len(f) != 0 {
 			errs.Failf("fatal shutdown fired at %v although the closers (slowest %ds) finished within the grace period (%s)", f, slowest, c.Grace)
 		}
 		// afterwards
@@ -627,7 +643,7 @@ func genCase(rt *rapid.T) mgrCase {
 			}
 			c.Closers = append(c.Closers, cs)
 		}
-		c.Grace = rapid.SampledFrom([]string{"none", "generous", "short"}).Draw(rt, "grace")
+		c.Grace = rapid.SampledFrom([]string{"none", "generous", "generous", "short", "short", "zero", "negative"}).Draw(rt, "grace")
 		ncl := rapid.IntRange(0, 3).Draw(rt, "ncloses")
 		for i := 0; i < ncl; i++ {
 			at := rapid.IntRange(-1, 80).Draw(rt, "closeAt")
